@@ -157,12 +157,16 @@ func genTable(t *rapid.T, small bool) []Entry {
 			hi = 6
 		}
 		n := rapid.IntRange(2, hi).Draw(t, "n")
-		if !small && rapid.IntRange(0, 5).Draw(t, "manyblocks") == 0 {
-			n = rapid.IntRange(25, 48).Draw(t, "n2") // more than 16 blocks: the index block gets a second restart interval
-		}
 		big := rapid.OneOf(rapid.IntRange(20000, 70000), rapid.IntRange(60000, 66000), rapid.IntRange(1, 64))
 		if !small && ev.Tier() == "thorough" {
 			big = rapid.OneOf(rapid.IntRange(20000, 70000), rapid.IntRange(60000, 66000), rapid.IntRange(1, 64), rapid.IntRange(100000, 1500000))
+		}
+		if !small && rapid.IntRange(0, 5).Draw(t, "manyblocks") == 0 {
+			ev.R().Count("gen_manyblocks_mode", 1)
+			n = rapid.IntRange(36, 60).Draw(t, "n2") // more than 16 blocks: the index block gets a second restart interval
+			// values that fill a block on their own: one block per big entry
+			big = rapid.OneOf(rapid.IntRange(65500, 66000), rapid.IntRange(65500, 66000), rapid.IntRange(65500, 66000), rapid.IntRange(1, 64))
+			mix.tomb, mix.empty = min(mix.tomb, 10), min(mix.empty, 10)
 		}
 		c := 0
 		for i := 0; i < n; i++ {
@@ -266,13 +270,14 @@ func sortDedup(es []Entry) []Entry {
 }
 
 // Target is a seek target / lookup key derived from entry I.
-//   at    the key itself
-//   succ  key + 0x00 (the smallest byte string above the key)
-//   pred  a byte string just below the key
-//   half  the first half of the key (a proper prefix)
-//   inc   the key with its last byte incremented
-//   low   the empty byte string (below every key)
-//   high  0xff.. longer than every key (above every key)
+//
+//	at    the key itself
+//	succ  key + 0x00 (the smallest byte string above the key)
+//	pred  a byte string just below the key
+//	half  the first half of the key (a proper prefix)
+//	inc   the key with its last byte incremented
+//	low   the empty byte string (below every key)
+//	high  0xff.. longer than every key (above every key)
 type Target struct {
 	I int    `json:"i"`
 	R string `json:"r"`
